@@ -15,6 +15,10 @@ class Ctx:
         self.tier = tier
         self.log = log
         self.q = oblig.Q()
+        if tier == "thorough":
+            self.q.cross_check = True
+            self.q.tmpdir = os.path.join(dump.CACHE, "smt")
+            os.makedirs(self.q.tmpdir, exist_ok=True)
         self.k = 2 if tier == "quick" else 3
         self.structs = sym.StructIndex(os.path.join(REPO, "src"))
         self.functions = []
@@ -100,6 +104,26 @@ def run_property(pid, spec_name, tier, log, open_findings, replay_dir):
         else:
             out["inconclusive"].append(f"{r.id}: " + "; ".join(r.notes))
         out["samples"].append(s)
+    if ctx.q.cross_check:
+        out["samples"].append({"cvc5_cross_check": {"queries": ctx.q.cross_total, "agree": ctx.q.cross_agree,
+                                                      "disagreements": ctx.q.cross_disagreements[:10]}})
+        log(f"[mirsym] cvc5 cross-check: {ctx.q.cross_agree}/{ctx.q.cross_total} verdicts agree")
+        if ctx.q.cross_disagreements:
+            out["inconclusive"].append(f"z3 and cvc5 disagree on {len(ctx.q.cross_disagreements)} queries: "
+                                       + "; ".join(ctx.q.cross_disagreements[:3]))
+    # parser self-check over every dumped body (thorough): the MIR reader must consume all of them
+    if tier == "thorough":
+        bad = 0
+        total = 0
+        for f in sorted(os.listdir(d)):
+            if f.endswith(".mir"):
+                total += 1
+                if mir.self_check(mir.parse_file(os.path.join(d, f))):
+                    bad += 1
+        out["samples"].append({"mir_parser_self_check": {"bodies": total, "with_problems": bad}})
+        log(f"[mirsym] parser self-check: {total} bodies, {bad} with problems")
+        if bad:
+            out["inconclusive"].append(f"MIR parser self-check failed on {bad} of {total} bodies")
     out["queries"] = ctx.q.queries
     out["solver_s"] = round(ctx.q.solver_s, 2)
     out["functions"] = sorted(set(ctx.functions))
